@@ -50,6 +50,13 @@ def run(res):
                                     "respondent (oracle only, no model comparison)": {k: cov3.get(k) for k in SUM_KEYS}}
     res.coverage["traces_validated_against_impl"] = cov1.get("evaluations", 0) + cov2.get("evaluations", 0)
     res.coverage["oracle_only_histories"] = cov3.get("evaluations", 0)
+    # a response arriving at the instant its survey is abandoned: the hand-over to the survey's queue (a channel that cancel closes)
+    # must happen under the socket mutex under which cancel unpublishes the survey -- lock discipline on the regenerated skeleton
+    from .c11 import run_static_subset
+    run_static_subset(res, "C07", ["surveyor.survey.recvQ+send"], "C07_gen_handover_under_lock",
+                      "a response is handed to a survey's receive queue, a channel that survey.cancel closes after taking the survey out of the socket's table under the "
+                      "socket mutex; a hand-over outside that mutex can hit the closed channel (panic: send on closed channel) when the survey is abandoned, "
+                      "expires or is closed at that moment")
     # search below the granularity of the histories: a survey's timer expiring while the next survey is being started
     out, defs, (rc, so, se) = core.gen_and_eval("C07_race", "c07race",
         "From Coq Require Import List NArith Bool.\nImport ListNotations.\nFrom MV Require Import Lib.Check.\nOpen Scope N_scope.\nOpen Scope list_scope.\n",
